@@ -363,13 +363,19 @@ inductive LegacyPre where
   | pre (b : Bytes)
 deriving DecidableEq, Repr
 
+/-- the script placed in the input being signed: `redeem_script` if given, else that input's
+    `script_pubkey()` -/
+def legacyCode (redeem : Option Script) (txin : TxIn) : Option Script :=
+  match redeem with
+  | some rs => some rs
+  | none => txin.scriptPubkey
+
 /-- the input loop of sig_hash_legacy (`k` = enumerate index).  `code` is the script placed in the
     input being signed: the redeem script if given, else that input's `_script_pubkey`. -/
 def legacyIns (i ht : Nat) (redeem : Option Script) : Nat → List TxIn → Option Bytes
   | _, [] => some []
   | k, txin :: r => do
-    let sc ← if k = i then (match redeem with | some rs => some rs | none => txin.scriptPubkey)
-             else some { cmds := [] }
+    let sc ← if k = i then legacyCode redeem txin else some { cmds := [] }
     let seq := if k ≠ i ∧ (base ht = Gen.sighashNone ∨ base ht = Gen.sighashSingle) then 0 else txin.sequence
     -- TxIn(...): Sequence(sequence) re-validates
     if !inRange seq Gen.maxSequence then none else
@@ -393,21 +399,32 @@ def legacyOuts (i ht : Nat) : Nat → List TxOut → Option Bytes
       let rest ← legacyOuts i ht (j + 1) r
       pure (a ++ rest)
 
+/-- the input count written by sig_hash_legacy (F05a repaired: 1 for ANYONECANPAY) -/
+def legacyInCount (t : Tx) (ht : Nat) : Option Bytes :=
+  if acp ht then encodeVarint 1 else encodeVarint t.ins.length
+
+/-- the output count (F05a repaired: 0 for NONE, index + 1 for SINGLE) -/
+def legacyOutCount (t : Tx) (i ht : Nat) : Option Bytes :=
+  if base ht = Gen.sighashNone then encodeVarint 0
+  else if base ht = Gen.sighashSingle then encodeVarint (i + 1)
+  else encodeVarint t.outs.length
+
+/-- the serialisation sig_hash_legacy hashes -/
+def legacyBody (t : Tx) (i : Nat) (redeem : Option Script) (ht : Nat) : Option Bytes := do
+  let v ← natToLE t.version Gen.legacyVersionW
+  let nIn ← legacyInCount t ht
+  let ins ← legacyIns i ht redeem 0 t.ins
+  let nOut ← legacyOutCount t i ht
+  let outs ← legacyOuts i ht 0 t.outs
+  let lt ← natToLE t.locktime Gen.locktimeSerW
+  let h ← natToLE ht Gen.legacyHashTypeW
+  pure (v ++ nIn ++ ins ++ nOut ++ outs ++ lt ++ h)
+
 /-- Tx.sig_hash_legacy up to the final hash256 -/
 def sigHashLegacyPre (t : Tx) (i : Nat) (redeem : Option Script) (ht : Nat) : Option LegacyPre :=
   if i ≥ t.ins.length then some .one
   else if base ht = Gen.sighashSingle ∧ i ≥ t.outs.length then some .one
-  else do
-    let v ← natToLE t.version Gen.legacyVersionW
-    let nIn ← if acp ht then encodeVarint 1 else encodeVarint t.ins.length
-    let ins ← legacyIns i ht redeem 0 t.ins
-    let nOut ← if base ht = Gen.sighashNone then encodeVarint 0
-               else if base ht = Gen.sighashSingle then encodeVarint (i + 1)
-               else encodeVarint t.outs.length
-    let outs ← legacyOuts i ht 0 t.outs
-    let lt ← natToLE t.locktime Gen.locktimeSerW
-    let h ← natToLE ht Gen.legacyHashTypeW
-    pure (.pre (v ++ nIn ++ ins ++ nOut ++ outs ++ lt ++ h))
+  else (legacyBody t i redeem ht).map .pre
 
 def LegacyPre.digest (hash256 : Bytes → Bytes) : LegacyPre → Nat
   | .one => Gen.legacyOne
